@@ -3,6 +3,7 @@ package main
 import (
 	"encoding/json"
 	"fmt"
+	"regexp"
 	"strings"
 	"time"
 
@@ -55,6 +56,9 @@ type c04Case struct {
 	DefSeg    int        `json:"default_seg"`
 	OnAuth    int        `json:"on_auth"`
 	Twins     []string   `json:"twins,omitempty"`
+	// Reused: the level definitions were used for another driver before, with that host's patterns
+	// (one definition map, patterns re-pointed per host): this driver must go by the current ones
+	Reused bool `json:"reused,omitempty"`
 }
 
 const c04AuthPromptRx = "pfesc_cisco_iosxe_default_privilege_exec"
@@ -208,6 +212,7 @@ func genC04(r *sim.Rng) *c04Case {
 			c.Segs = append(c.Segs, []int{1, 2, 3, 7, 64}[r.Intn(5)])
 		}
 	}
+	c.Reused = r.Chance(1, 4)
 	return c
 }
 
@@ -308,6 +313,23 @@ func runC04Case(id string, c *c04Case) {
 		options.WithPrivilegeLevels(pl), options.WithDefaultDesiredPriv(c.Default)}
 	if c.Secondary != "" {
 		opts = append(opts, options.WithAuthSecondary(c.Secondary))
+	}
+	if c.Reused {
+		real := map[string]string{}
+		for n, p := range pl {
+			real[n] = p.Pattern
+			p.Pattern = `(?im)^other-host\(` + regexp.QuoteMeta(n) + `\)[#>]$`
+		}
+		if _, derr := network.NewDriver("other-host", options.WithCustomTransport(sim.NewTransport(&sim.PrivDevice{Levels: map[string]*sim.PrivLevel{}})),
+			options.WithPrivilegeLevels(pl), options.WithDefaultDesiredPriv(c.Default)); derr != nil {
+			cs.Oracle = "driver construction (first host) failed: " + derr.Error()
+			emit(cs)
+			return
+		}
+		for n, p := range pl {
+			p.Pattern = real[n]
+		}
+		cs.Kind += "+reused"
 	}
 	d, err := network.NewDriver("sim", opts...)
 	if err != nil {
